@@ -63,6 +63,7 @@ type accessRec struct {
 	clk   uint32
 	site  string
 	write bool
+	atom  bool
 }
 
 type shadowCell struct {
@@ -101,6 +102,7 @@ func site(skip int) string {
 const (
 	kindField = iota
 	kindMap
+	kindAtomic // access through sync/atomic: races only with plain accesses
 )
 
 func access(addr uintptr, keep any, write bool, kind int) {
@@ -118,7 +120,11 @@ func access(addr uintptr, keep any, write bool, kind int) {
 	}
 	me := t.id
 	clk := t.vc.get(me)
+	isAtom := kind == kindAtomic
 	report := func(prev *accessRec) {
+		if prev.atom && isAtom {
+			return
+		}
 		if len(S.ex.Races) < 8 {
 			what := fmt.Sprintf("%T", cell.keep)
 			S.ex.Races = append(S.ex.Races, fmt.Sprintf("data race on %s: %s by T%d at %s is unordered with %s by T%d at %s",
@@ -140,7 +146,7 @@ func access(addr uintptr, keep any, write bool, kind int) {
 				report(r)
 			}
 		}
-		cell.lastW = accessRec{tid: me, clk: clk, site: st, write: true}
+		cell.lastW = accessRec{tid: me, clk: clk, site: st, write: true, atom: isAtom}
 		cell.hasW = true
 		cell.reads = cell.reads[:0]
 	} else {
@@ -148,10 +154,11 @@ func access(addr uintptr, keep any, write bool, kind int) {
 			if cell.reads[i].tid == me {
 				cell.reads[i].clk = clk
 				cell.reads[i].site = st
+				cell.reads[i].atom = isAtom
 				return
 			}
 		}
-		cell.reads = append(cell.reads, accessRec{tid: me, clk: clk, site: st})
+		cell.reads = append(cell.reads, accessRec{tid: me, clk: clk, site: st, atom: isAtom})
 	}
 }
 
